@@ -289,8 +289,35 @@ fn classify(msg: &str) -> &'static str {
     }
 }
 
+/// Fallback-prefix cases: `prefixes|<p1;p2;…>|<render|str>|<template name to render>`; the template
+/// called `__str` is not registered, it is the source handed to `render_str`
+fn prefix_spec(case: &Case) -> Option<(Vec<String>, String, String)> {
+    let mut it = case.stream.split('|');
+    if it.next()? != "prefixes" {
+        return None;
+    }
+    let prefixes = it.next()?.split(';').filter(|p| !p.is_empty()).map(|p| p.to_string()).collect();
+    Some((prefixes, it.next()?.to_string(), it.next().unwrap_or("").to_string()))
+}
+
+/// The documented resolution: the exact name first, then the fallback prefixes in order
+fn resolve_by_rule(prefixes: &[String], names: &[String], name: &str) -> Option<String> {
+    if names.iter().any(|n| n == name) {
+        return Some(name.to_string());
+    }
+    prefixes.iter().map(|p| format!("{p}{name}")).find(|c| names.contains(c))
+}
+
 fn build_engine_raw(case: &Case) -> Result<Tera, String> {
     let mut tera = Tera::default();
+    if let Some((prefixes, _, _)) = prefix_spec(case) {
+        tera.set_fallback_prefixes(prefixes).map_err(|e| format!("{e}"))?;
+        tera.add_raw_templates(case.sources().into_iter().filter(|(n, _)| n != "__str")).map_err(|e| format!("{e}"))?;
+        for (k, v) in &case.global {
+            tera.global_context().insert_value(k.clone(), v.clone());
+        }
+        return Ok(tera);
+    }
     tera.add_raw_templates(case.sources()).map_err(|e| format!("{e}"))?;
     for (k, v) in &case.global {
         tera.global_context().insert_value(k.clone(), v.clone());
@@ -345,6 +372,26 @@ fn run_real(case: &Case) -> String {
         Err(e) if e.starts_with("panic ") => e,
         Err(e) => format!("adderr {}", e.lines().next().unwrap_or("")),
         Ok(tera) => match inherit_target(case) {
+            None if prefix_spec(case).is_some() => {
+                let (_, mode, target) = prefix_spec(case).unwrap();
+                if mode == "str" {
+                    let src = case.sources().into_iter().find(|(n, _)| n == "__str").map(|(_, s)| s).unwrap_or_default();
+                    let ctx = context_of(case);
+                    match catch(std::panic::AssertUnwindSafe(|| tera.render_str(&src, &ctx, false))) {
+                        Err(p) => format!("panic {p}"),
+                        Ok(Ok(text)) => format!("ok {}", hex(text.as_bytes())),
+                        Ok(Err(e)) => {
+                            let msg = match e.kind() {
+                                tera::ErrorKind::RenderingError(r) => r.message().to_string(),
+                                _ => e.to_string(),
+                            };
+                            format!("err {}", classify(&msg))
+                        }
+                    }
+                } else {
+                    render_outcome(&tera, &target, &context_of(case))
+                }
+            }
             None => render_outcome(&tera, &case.templates[0].0, &context_of(case)),
             Some((name, None)) => render_outcome(&tera, &name, &context_of(case)),
             Some((name, Some(block))) => {
@@ -374,6 +421,53 @@ fn show_outcome(o: &str) -> String {
 
 /// The request line for the model: the REAL parser's AST of every template
 fn model_request(case: &Case) -> Result<String, String> {
+    if let Some((prefixes, mode, target)) = prefix_spec(case) {
+        let sources = case.sources();
+        let registered: Vec<String> = sources.iter().map(|(n, _)| n.clone()).filter(|n| n != "__str").collect();
+        let main = if mode == "str" { "__str".to_string() } else { target.clone() };
+        // every name an include (or the render call) uses that is not an exact name becomes an alias entry
+        let mut wanted: Vec<String> = vec![main.clone()];
+        for (_, src) in &sources {
+            let mut rest = src.as_str();
+            while let Some(i) = rest.find("include \"") {
+                let after = &rest[i + 9..];
+                if let Some(j) = after.find('"') {
+                    wanted.push(after[..j].to_string());
+                    rest = &after[j..];
+                } else {
+                    break;
+                }
+            }
+        }
+        let mut entries: Vec<(String, String)> = sources.clone();
+        for w in wanted {
+            if entries.iter().any(|(n, _)| *n == w) {
+                continue;
+            }
+            if let Some(r) = resolve_by_rule(&prefixes, &registered, &w) {
+                let src = sources.iter().find(|(n, _)| *n == r).unwrap().1.clone();
+                entries.push((w, src));
+            }
+        }
+        let mut s = format!("render n:{} T{}", hex(main.as_bytes()), entries.len());
+        for (name, src) in entries {
+            let ast = match catch(std::panic::AssertUnwindSafe(|| tera::verif_hooks::ast_wire(&src, Delimiters::default()).map_err(|e| format!("{:?}", e.kind())))) {
+                Ok(r) => r?,
+                Err(p) => return Err(format!("panic {p}")),
+            };
+            s.push_str(&format!(" n:{} 0 {}", hex(name.as_bytes()), ast));
+        }
+        let mut m: BTreeMap<&str, &Value> = BTreeMap::new();
+        for (k, v) in &case.ctx {
+            m.insert(k, v);
+        }
+        s.push_str(&format!(" X{}", m.len()));
+        for (k, v) in m {
+            s.push_str(&format!(" n:{} {}", hex(k.as_bytes()), encode(v)));
+        }
+        s.push_str(" G0");
+        return Ok(s);
+    }
     let target = inherit_target(case);
     let mut s = match &target {
         None => format!("render n:{} T{}", hex(case.templates[0].0.as_bytes()), case.templates.len()),
@@ -2340,6 +2434,139 @@ fn oracle_set_forms(out: &mut Vec<Check>) {
     }
 }
 
+
+// ------------------------------------------------------------------ loop.* through captures; fallback prefixes
+
+/// `loop.*` refers to the innermost enclosing `for` also through filter sections, set blocks and
+/// ifs between the loop and the read — whether or not the context has a variable called `loop`
+fn oracle_loop_fields_through_captures(out: &mut Vec<Check>) {
+    let fields = "{{ loop.index }}/{{ loop.index0 }}/{{ loop.first }}/{{ loop.last }}/{{ loop.length }}";
+    let cell = |k: usize, n: usize| format!("{}/{}/{}/{}/{}", k + 1, k, k == 0, k + 1 == n, n);
+    // (wrapper with `@` for the read, does it upper-case)
+    let wrappers: Vec<(&str, bool)> = vec![
+        ("@", false),
+        ("{% filter upper %}@{% endfilter %}", true),
+        ("{% filter trim %} @ {% endfilter %}", false),
+        ("{% set c %}@{% endset %}{{ c }}", false),
+        ("{% set c | upper %}@{% endset %}{{ c }}", true),
+        ("{% set_global c %}@{% endset %}{{ c }}", false),
+        ("{% if true %}@{% endif %}", false),
+        ("{% if true %}{% filter upper %}@{% endfilter %}{% endif %}", true),
+        ("{% filter upper %}{% if true %}@{% endif %}{% endfilter %}", true),
+        ("{% set c %}{% filter upper %}@{% endfilter %}{% endset %}{{ c }}", true),
+        ("{% filter upper %}{% set c %}@{% endset %}{{ c }}{% endfilter %}", true),
+        ("{% filter lower %}{% filter upper %}@{% endfilter %}{% endfilter %}", false),
+        ("{% set c %}{% set d %}@{% endset %}{{ d }}{% endset %}{{ c }}", false),
+        ("{% filter upper %}{% if loop.first %}F{% else %}N{% endif %}:@{% endfilter %}", true),
+        ("{% set c = loop.index * 10 %}{% filter upper %}{{ c }}:@{% endfilter %}", true),
+    ];
+    for with_ctx_loop in [false, true] {
+        let mut ctx = vec![("xs".to_string(), Value::from(vec![Value::from("p"), Value::from("q"), Value::from("r")])), ("ys".to_string(), Value::from(vec![Value::from(1), Value::from(2)]))];
+        if with_ctx_loop {
+            let mut m = tera::Map::new();
+            for k in ["index", "index0", "first", "last", "length"] {
+                m.insert(k.into(), Value::from("CTX"));
+            }
+            ctx.push(("loop".into(), Value::from(m)));
+        }
+        let mk = |src: &str| simple_case("oracle.loop_fields", src, ctx.clone(), vec![]);
+        for (w, upper) in &wrappers {
+            let mut exp = String::new();
+            for k in 0..3 {
+                let mut c = cell(k, 3);
+                if w.contains("F{% else %}N") {
+                    c = format!("{}:{c}", if k == 0 { "F" } else { "N" });
+                }
+                if w.contains("loop.index * 10") {
+                    c = format!("{}:{c}", (k + 1) * 10);
+                }
+                let c = if *upper { c.to_uppercase() } else { c };
+                exp.push_str(&format!("[{c}]"));
+            }
+            out.push(Check { oracle: "loop.fields_through_captures", case: mk(&format!("{{% for x in xs %}}[{}]{{% endfor %}}", w.replace('@', fields))), expect: Expect::Text(exp) });
+            // the same read in an inner loop inside the wrapper refers to the INNER loop
+            let mut exp = String::new();
+            for _ in 0..3 {
+                let mut inner = String::new();
+                for j in 0..2 {
+                    inner.push_str(&format!("({})", cell(j, 2)));
+                }
+                let inner = if *upper { inner.to_uppercase() } else { inner };
+                if w.contains("F{% else %}N") || w.contains("loop.index * 10") {
+                    continue;
+                }
+                exp.push_str(&format!("[{inner}]"));
+            }
+            if !(w.contains("F{% else %}N") || w.contains("loop.index * 10")) {
+                out.push(Check {
+                    oracle: "loop.fields_through_captures",
+                    case: mk(&format!("{{% for x in xs %}}[{}]{{% endfor %}}", w.replace('@', &format!("{{% for y in ys %}}({fields}){{% endfor %}}")))),
+                    expect: Expect::Text(exp),
+                });
+            }
+        }
+        // outside every loop (and in a template included from inside a loop) `loop` is an ordinary name
+        let e = if with_ctx_loop { Expect::Text("CTX".into()) } else { Expect::ErrClass("undefined") };
+        out.push(Check { oracle: "loop.fields_through_captures", case: mk("{% filter upper %}{{ loop.index }}{% endfilter %}"), expect: e.clone() });
+        out.push(Check {
+            oracle: "loop.fields_through_captures",
+            case: Case { templates: vec![("main".into(), tpl("{% for x in ys %}{% if loop.first %}{% include \"inc\" %}{% endif %}{% endfor %}")), ("inc".into(), tpl("{{ loop.index }}"))], ctx: ctx.clone(), global: vec![], stream: "oracle.loop_fields".into() },
+            expect: e,
+        });
+    }
+}
+
+/// `include "name"` (and `render("name")`, and includes inside `render_str`) resolve the exact name
+/// first, then the fallback prefixes IN ORDER
+fn oracle_fallback_prefixes(out: &mut Vec<Check>) {
+    let prefix_sets: Vec<Vec<&str>> = vec![vec!["a/", "b/"], vec!["b/", "a/"], vec!["a/", "b/", "c/"], vec!["c/", "b/", "a/"], vec!["a/"]];
+    let holders = ["", "a/", "b/", "c/"];
+    let mains: Vec<(&str, &str)> = vec![
+        ("plain", "<{% include \"part\" %}>"),
+        ("in_for", "{% for x in [1, 2] %}<{% include \"part\" %}>{% endfor %}"),
+        ("in_set_block", "{% set c %}{% include \"part\" %}{% endset %}<{{ c }}>"),
+        ("in_filter_in_for", "{% for x in [1] %}{% filter lower %}<{% include \"part\" %}>{% endfilter %}{% endfor %}"),
+        ("chain", "<{% include \"mid\" %}>"),
+    ];
+    for prefixes in &prefix_sets {
+        // which of part, a/part, b/part, c/part exist: every non-empty subset
+        for mask in 1u32..16 {
+            let present: Vec<String> = holders.iter().enumerate().filter(|(i, _)| mask & (1 << i) != 0).map(|(_, h)| format!("{h}part")).collect();
+            let pf: Vec<String> = prefixes.iter().map(|p| p.to_string()).collect();
+            let Some(resolved) = resolve_by_rule(&pf, &present, "part") else { continue };
+            let marker = |n: &str| n.replace('/', "-").to_uppercase();
+            for (mname, msrc) in &mains {
+                let mut templates: Vec<(String, Vec<St>)> = present.iter().map(|n| (n.clone(), tpl(&format!("{}{{{{ x | default(value=\"\") }}}}", marker(n))))).collect();
+                // the intermediate template of the chain lives under the LAST prefix only
+                templates.push((format!("{}mid", prefixes.last().unwrap()), tpl("m:{% include \"part\" %}")));
+                let (body, reps): (String, Vec<&str>) = match *mname {
+                    "plain" => ("<@>".into(), vec![""]),
+                    "in_for" => ("<@>".into(), vec!["1", "2"]),
+                    "in_set_block" => ("<@>".into(), vec![""]),
+                    "in_filter_in_for" => ("<@>".into(), vec!["1"]),
+                    _ => ("<m:@>".into(), vec![""]),
+                };
+                let mut expected = String::new();
+                for r in reps {
+                    let t = format!("{}{r}", marker(&resolved));
+                    let t = if *mname == "in_filter_in_for" { t.to_lowercase() } else { t };
+                    expected.push_str(&body.replace('@', &t));
+                }
+                // (1) a registered main template, (2) the same source through render_str, (3) rendered by a bare name
+                let mut t1 = templates.clone();
+                t1.push(("main".into(), tpl(msrc)));
+                out.push(Check { oracle: "include.fallback_prefix_order", case: Case { templates: t1, ctx: vec![], global: vec![], stream: format!("prefixes|{}|render|main", prefixes.join(";")) }, expect: Expect::Text(expected.clone()) });
+                let mut t2 = templates.clone();
+                t2.push(("__str".into(), tpl(msrc)));
+                out.push(Check { oracle: "include.fallback_prefix_order", case: Case { templates: t2, ctx: vec![], global: vec![], stream: format!("prefixes|{}|str|", prefixes.join(";")) }, expect: Expect::Text(expected.clone()) });
+            }
+            // render by the bare name: same rule
+            let templates: Vec<(String, Vec<St>)> = present.iter().map(|n| (n.clone(), tpl(&marker(n)))).collect();
+            out.push(Check { oracle: "include.fallback_prefix_order", case: Case { templates, ctx: vec![], global: vec![], stream: format!("prefixes|{}|render|part", prefixes.join(";")) }, expect: Expect::Text(marker(&resolved)) });
+        }
+    }
+}
+
 // ------------------------------------------------------------------ value-level operator matrix (C02)
 
 /// every encoding that can hold the integer (sign, magnitude)
@@ -2814,7 +3041,23 @@ fn oracle_inheritance_shapes(out: &mut Vec<Check>) {
         ("t2", "{% extends \"t1\" %}{% block d %}d2{{ super() }}{% endblock %}"),
         ("t3", "{% extends \"t2\" %}{% block b %}b3{% endblock %}"),
     ]);
+    let c = fam(&[
+        ("t0", "{% set s %}{% filter upper %}<{% block b %}b0{% block n %}n0{% endblock %}{% endblock %}>{% endfilter %}{% endset %}[{{ s }}]{% filter trim %} {% block e %}e0{% endblock %} {% endfilter %}"),
+        ("t1", "{% extends \"t0\" %}{% block n %}n1{{ super() }}{% endblock %}{% block e %}{% filter upper %}e1{% endfilter %}{{ super() }}{% endblock %}"),
+        ("t2", "{% extends \"t1\" %}{% block b %}b2{% set q %}{% block n %}n2{% endblock %}{% endset %}({{ q }}){% endblock %}"),
+    ]);
     let cases: Vec<(&Vec<(String, Vec<St>)>, &str, &str, &str)> = vec![
+        (&c, "t0", "", "[<B0N0>]e0"),
+        (&c, "t0", "b", "b0n0"),
+        (&c, "t0", "n", "n0"),
+        (&c, "t0", "e", "e0"),
+        (&c, "t1", "", "[<B0N1N0>]E1e0"),
+        (&c, "t1", "b", "b0n1n0"),
+        (&c, "t1", "n", "n1n0"),
+        (&c, "t1", "e", "E1e0"),
+        (&c, "t2", "", "[<B2(N2)>]E1e0"),
+        (&c, "t2", "b", "b2(n2)"),
+        (&c, "t2", "n", "n2"),
         (&a, "t0", "", "XB0|[a0]"),
         (&a, "t0", "b", "b0"),
         (&a, "t0", "a", "a0"),
@@ -3417,6 +3660,10 @@ pub fn run(prop: &str) {
         }
         oracle_scoping_deep(&mut fixed);
         oracle_set_forms(&mut fixed);
+        oracle_loop_fields_through_captures(&mut fixed);
+        oracle_fallback_prefixes(&mut fixed);
+        // render_block of blocks written inside captures (also C04's clause; c04e runs them too)
+        oracle_inheritance_shapes(&mut fixed);
     }
     if !c04 {
         oracle_type_errors(&mut fixed);
